@@ -778,6 +778,11 @@ def compute_kdf_context(
     l1: int,
     l2: int,
 ) -> bytes:
+    # The L0 index of a blob or envelope is an unsigned 32-bit field but the
+    # KDF context (and the GetKey request) encode it as a signed LONG.
+    if not -0x80000000 <= l0 <= 0x7FFFFFFF:
+        raise ValueError(f"L0 index {l0} is out of range")
+
     return b"".join(
         [
             key_guid.bytes_le,
